@@ -296,6 +296,15 @@ func c15Child(cfg Cfg) int {
 	signBatchCtx := func(keys []int, ctx context.Context) {
 		outstanding.Add(1)
 		defer outstanding.Add(-1)
+		defer func() {
+			// What the server's recovery interceptor does with a panic in the serving goroutine.
+			if p := recover(); p != nil {
+				if s, ok := p.(string); !ok || !strings.HasPrefix(s, "injected panic") {
+					panic(p)
+				}
+				completions.Add(1)
+			}
+		}()
 		e := atomic.AddUint64(&seq, 1)
 		cs := make([]*AttCase, len(keys))
 		for i, k := range keys {
@@ -402,9 +411,21 @@ func c15Child(cfg Cfg) int {
 
 	// (2) Sustained random load.  One storage operation in 41 fails (injected at the storage hook): a request that
 	// fails must still finish and release what it holds.
-	var hookCalls, faults atomic.Int64
+	var hookCalls, faults, panics atomic.Int64
 	verifhook.Set(func(name string, _ [][]byte) error {
-		if strings.HasSuffix(name, ".pre") && hookCalls.Add(1)%41 == 0 {
+		if !strings.HasSuffix(name, ".pre") {
+			return nil
+		}
+		n := hookCalls.Add(1)
+		if name == "store.BatchStore.pre" && n%29 == 0 {
+			// A panic while a batch's rules run (the batch path runs in the goroutine that serves the request,
+			// where the server's recovery interceptor turns it into an error): whatever the request held must be
+			// released all the same.  (Single requests run their rules in worker goroutines, where a panic is
+			// fatal to any Go program; none is injected there.)
+			panics.Add(1)
+			panic("injected panic in the batch rules")
+		}
+		if n%41 == 0 {
 			faults.Add(1)
 			return errors.New("injected storage fault")
 		}
@@ -465,6 +486,7 @@ func c15Child(cfg Cfg) int {
 	fmt.Printf("STAT requests_abandoned_by_client %d\n", cancelled.Load())
 	fmt.Printf("STAT completions %d\n", completions.Load())
 	fmt.Printf("STAT injected_storage_faults %d\n", faults.Load())
+	fmt.Printf("STAT injected_panics_in_batch_rules %d\n", panics.Load())
 	fmt.Printf("STAT locker_events %d\n", g.events.Load())
 	fmt.Printf("STAT max_wait_graph_size %d\n", g.maxSize)
 	fmt.Printf("STAT distinct_lock_order_edges %d\n", len(g.edges))
